@@ -143,7 +143,7 @@ def run(chk):
     found_input = False
     for name, test, tmo in (("main", "TestVerifC19Main", 1500), ("corrupt", "TestVerifC19Corrupt", 1500),
                             ("suites", "TestVerifC19Suites", 300), ("custom", "TestVerifC19Custom", 300),
-                            ("mid", "TestVerifC19MidHandshake", 300)):
+                            ("mid", "TestVerifC19MidHandshake", 300), ("vc", "TestVerifC19VerifyConn", 600)):
         outp = vlib.out_path("c19" + name)
         rc, o = vlib.go_test(".", "^%s$" % test, dict(env, VERIF_OUT=outp), timeout=tmo, tags=["c19"])
         legs[name] = vlib.read_jsonl(outp)
@@ -215,6 +215,22 @@ def run(chk):
                      "peer_state_hex": b.get("peer_hex"), "base": c["base"], "side": c["side"],
                      "differs_in": c["diff"], "class": cls, "x2p": c["x2p"], "p2x": c["p2x"],
                      "fields_hit_in_this_run": live_fields[cls], "rerun": rerun})
+
+    # export at VerifyConnection time: the captured State has local epoch 0 - it must not resume
+    vcs = [c for c in legs["vc"] if c.get("captured")]
+    for c in vcs:
+        bad = None
+        if c["panic"]:
+            bad = "panic: %s" % c["panic"]
+        elif c["marshal_err"] == "ok" and (c["resume_obj_err"] == "ok" or (c["decode_err"] == "ok" and c["resume_err"] == "ok")):
+            bad = ("a State captured by VerifyConnection (local epoch %d, %d-byte master secret) was resumed; records it "
+                   "wrote: %s" % (c["captured"]["local_epoch"], len(c["captured"]["master"]) // 2, c["wire"]))
+        if bad:
+            found_input = True
+            chk.finding("state.go generateInternalState", {"monitor": "pre-key-state-resumed"}, bad,
+                        {"how": "VerifyConnection callback copies its *State; after the handshake MarshalBinary / "
+                                "UnmarshalBinary / resumeWithConfig on a fresh endpoint", "case": c, "rerun": rerun})
+            break
 
     # observations outside the letter of C19 (evidence only)
     obs = {}
@@ -306,6 +322,25 @@ def run(chk):
                      truncations="every prefix of each base state",
                      accepted_and_live_by_class_and_field=live_fields)
 
+        # export at VerifyConnection time
+        vterms = ["(%s, %s, %s)" % (c_pstate(c["captured"]), cbool(c["decode_err"] == "ok"),
+                                     cbool(c["decode_err"] == "ok" and c["resume_err"] == "ok"))
+                  for c in vcs if c["marshal_err"] == "ok"]
+        bad, err = vlib.coq_mismatches("c19v", IMPORTS, "vc_case", "vc_ok", vterms)
+        if bad is None:
+            chk.broken("correspondence evaluation (verifyconn) failed in coqc", err)
+        else:
+            for i in bad[:1]:
+                c = [c for c in vcs if c["marshal_err"] == "ok"][i]
+                chk.finding("state.go generateInternalState", {"monitor": "model-mismatch", "leg": "verifyconn"},
+                            "treatment of a State captured by VerifyConnection differs from State/C19Export.v model "
+                            "(decode=%s resume=%s)" % (c["decode_err"], c["resume_err"]),
+                            {"case": c, "correspondence": "State.C19Run.vc_ok", "rerun": rerun}, no_input=not found_input)
+        chk.count("verifyconn", len(legs["vc"]), [(c["variant"]["name"], c["side"]) for c in vcs],
+                  samples=[{k: c[k] for k in ("variant", "side", "called", "decode_err", "resume_err")} for c in vcs[:2]])
+        chk.leg_info("verifyconn", callback_not_run=sum(1 for c in legs["vc"] if not c.get("captured")),
+                     refused=sum(1 for c in vcs if c["resume_err"] not in ("ok", "")))
+
         # suite table
         sterms = ["(%d, %s, %s, %s, %s, %d)" % (c["id"], cbool(c["known"]), cbool(c["v13"]), cbool(c["init_ok"]),
                                                   cbool(c["resume"]), c["hash"]) for c in suites]
@@ -332,6 +367,8 @@ def run(chk):
              "non-trivial = the resumed connection or its peer wrote at least one record; distinct by (variant, i, j, k, m, side). "
              "corrupt: every truncation, generated bit/byte damage and ~90 field-level mutations of 3 (6 thorough) exported states, "
              "each resumed against the peer's own export; non-trivial = decoded, or refused by a modelled rule. "
+             "verifyconn: the State handed to a VerifyConnection callback (local epoch 0), on both sides of 6 variants (34 thorough): "
+             "serialises and decodes, must be refused by the import. "
              "suites: every 16-bit id known to ForID plus sampled unknown ids.",
         assumptions=[
             "gob (Go standard library) round-trips a serializedState value; byte-level damage that gob rejects is observed, not modelled",
